@@ -90,6 +90,7 @@ func (self *Interpreter) Execute(entryModule string) *value.Interrupt {
 }
 
 func (self *Interpreter) checkCancelation(span errors.Span) *value.Interrupt {
+	vh("Poll", int64(self.callStackSize))
 	select {
 	case <-(*self.cancelCtx).Done():
 		return value.NewTerminationInterrupt(context.Cause((*self.cancelCtx)).Error(), span)
